@@ -1,7 +1,7 @@
-(* C16Extra — facts that DESCRIBE the current tree exactly (the accept set of the validator, the one yaml tag that differs,
-   the one documented key nothing decodes).  They are informational: a stricter validator, a corrected yaml tag or a
-   corrected document changes them without violating property C16, so bin/check C16 does not depend on this file
-   (it is built by `make` with everything else; see design-notes/config-notes.md).  Theorems only. *)
+(* C16Extra — the exact accept set of the validation MODEL (converse of c16_sound).  Informational: bin/check C16 does not
+   depend on this file (it is built by `make` with everything else; see design-notes/config-notes.md).  The facts that
+   describe the source tree (the one yaml tag that differs, the one documented key nothing decodes) are in
+   Properties/C16Src.v with the rest of the supplementary source tie.  Theorems only. *)
 From Coq Require Import String ZArith List.
 From Esc Require Import SpecConfig proofs.ConfigProofs proofs.ConfigAcceptProofs.
 Import ListNotations.
@@ -9,23 +9,10 @@ Open Scope string_scope.
 Open Scope Z_scope.
 
 (* the converse of c16_sound: validation demands `safe` and the presence of the three mandatory duration texts, nothing more *)
-Theorem c16_complete : forall c, safe c -> beyond_safe c -> gen_validate c = true.
-Proof. exact safe_gen_validate. Qed.
+Theorem c16_complete : forall c, safe c -> beyond_safe c -> model_validate c = true.
+Proof. exact safe_model_validate. Qed.
 Print Assumptions c16_complete.
 
-Theorem c16_accept_set : forall c, gen_validate c = true <-> safe c /\ beyond_safe c.
-Proof. exact gen_validate_iff. Qed.
+Theorem c16_accept_set : forall c, model_validate c = true <-> safe c /\ beyond_safe c.
+Proof. exact model_validate_iff. Qed.
 Print Assumptions c16_accept_set.
-
-(* the yaml struct tag of HardDeleteGracePeriod repeats soft_delete_grace_period; harmless while decoding goes
-   YAML -> JSON -> json tags (the C16 run decodes hard_delete_grace_period from YAML and checks the field) *)
-Example c16_yaml_tags_note :
-  yaml_differs gen_tag_table = [("HardDeleteGracePeriod", ("hard_delete_grace_period", "soft_delete_grace_period"))]
-  /\ yaml_differs gen_aws_tag_table = [].
-Proof. split; vm_compute; reflexivity. Qed.
-
-(* known finding K2: the one documented key that no field carries *)
-Example c16_k2_unhonoured_key :
-  unhonoured gen_documented_keys gen_json_tags = ["scale_up_cool_down_timeout"]
-  /\ unhonoured gen_documented_aws_keys gen_aws_json_tags = [].
-Proof. split; vm_compute; reflexivity. Qed.
